@@ -78,7 +78,7 @@ func SocketFns(p *Program) []*SocketFn {
 		sf := &SocketFn{Fn: fn, Name: calleeName(fn), Opens: opens, IsDial: strings.Contains(opens, "Dial")}
 		sf.Listen = fn.Signature.Results().Len() == 1
 		w := NewWalker(p)
-		w.LoopFuel = 2
+		w.LoopFuel = bound(2, 3)
 		w.Inline = inlineHelpers([]*ssa.Package{up}, nil)
 		args := make([]*Term, len(fn.Params))
 		for i, prm := range fn.Params {
